@@ -790,12 +790,41 @@ func judgeNextless(c *core.Ctx, judge judgeFn, t scase, o panrun.Obs) {
 	judge("iterator without next: "+strings.ReplaceAll(t.Src, "\n", "; "), t, t.Src+"\n", o, "nextless")
 }
 
+// sweepRegex: every pattern of <=4 (thorough 5) tokens over a small alphabet of regular-expression constructs is
+// used by the three str properties that take patterns (sub, /, match) on two subjects; an unparsable pattern is
+// a Pangaea error, never a panic of the engine or of the code that walks its matches.
+func sweepRegex(c *core.Ctx, judge judgeFn) {
+	toks := []string{"a", "$", "^", ".", "+?", "*", "+", "(?=", "(?!", "(?<=", "(", ")", "|", "\\b"}
+	depth := c.Pick(4, 5)
+	var pats []string
+	var rec func(cur string, n int)
+	rec = func(cur string, n int) {
+		if n > 0 {
+			pats = append(pats, cur)
+		}
+		if n == depth {
+			return
+		}
+		for _, t := range toks {
+			rec(cur+t, n+1)
+		}
+	}
+	rec("", 0)
+	c.Note("regex_patterns", len(pats))
+	tk.Batched(c, 300, sourcePrelude, func(emit func(scase)) {
+		for _, p := range pats {
+			emit(scase{Mode: "regex", Src: "[nil.try.{|u| \"aaaa\".sub(`" + p + "`, \"x\")}.A.len, nil.try.{|u| \"aaaa\" / `" + p + "`}.A.len, nil.try.{|u| \"a b\".match(`" + p + "`)}.A.len, nil.try.{|u| \"\".sub(`" + p + "`, \"x\")}.A.len]"})
+		}
+	}, func(t scase) string { return t.Src }, func(t scase, o panrun.Obs) { judge("regex: "+t.Src, t, t.Src+"\n", o, "regex") })
+}
+
 func run(c *core.Ctx) {
 	judge := newJudge(c)
 	sweepREPL(c, judge)
 	sweepIterators(c, judge)
 	sweepFiniteRanges(c, judge)
 	sweepNextless(c, judge)
+	sweepRegex(c, judge)
 	sweepCLI(c, judge)
 	sweepSources(c, judge)
 	sweepTokens(c, judge)
